@@ -140,7 +140,9 @@ class ExtendedTestResult(Python27TestResult):
         self._tags = TagContext(self._tags)
 
     def stopTest(self, test):
-        self._tags = self._tags.parent
+        # NOTE: In Python 3.12.1 skipped tests may not call startTest()
+        if self._tags.parent is not None:
+            self._tags = self._tags.parent
         super().stopTest(test)
 
     @property
